@@ -304,6 +304,12 @@ func PreMarshal(element Element, encoder *xml.Encoder, start *xml.StartElement) 
 				Name:  xml.Name{Local: "xmlns:olive"},
 				Value: "http://olive.io/spec/BPMN/MODEL",
 			},
+			// AnExpression.MarshalXML writes xsi:type: without the declaration a parser
+			// does not recognise the attribute and formal expressions come back informal
+			xml.Attr{
+				Name:  xml.Name{Local: "xmlns:xsi"},
+				Value: "http://www.w3.org/2001/XMLSchema-instance",
+			},
 		)
 	}
 }
